@@ -58,7 +58,7 @@ _add(Family(
 _add(Family(
     "net",
     ["http://", "FTP://", "hTTps://", "a.com", "example.com", "1.2.3.4", "0x7f.1", "%41", "%2f", "%zz", "%5B", "[", "::1", "]", ":", "80",
-     "99999", "@", "/", "..", ".", "?", "#", "'", "(", ")", "\x05", "0", "x", " ", "bob", ".org"],
+     "99999", "@", "/", "..", ".", "?", "#", "'", "(", ")", "\x05", "0", "x", " ", "bob", ".org", "/abc/def/"],
     {"quick": 3, "thorough": 4},
 ))
 _add(Family(
